@@ -84,8 +84,10 @@ let is_unscaled (a : xform) : bool = q_is a.m00 1 && q_is a.m01 0 && q_is a.m10 
 
 let z_abs (v : z) : z = match v with Zneg p -> Zpos p | _ -> v
 
+(* the component transforms are the SPECIFIED ones (spec_xform: OpenType semantics, no constants from
+   the source) so that a wrong matrix in the implementation is a violation, not an agreement *)
 let expected (t : z list list) (gid : z) : expect cmd list outcome =
-  match visit_insts comp_xform t gid, visit_bounds t gid with
+  match visit_insts spec_xform t gid, visit_insts (fun c -> x_abs (spec_xform c)) t gid with
   | Ok insts, Ok bounds when List.length insts = List.length bounds ->
     Ok (List.concat (List.map2 (fun (tr, cmds) (ab, _) ->
         let exact = is_unscaled ab in
